@@ -332,6 +332,13 @@ func c06Run(t *testing.T, h []int, names []string) (res seqx.Result) {
 				time.Sleep(30 * time.Second)
 			case e == na+6:
 				time.Sleep(61 * time.Second)
+			case e == na+7:
+				// one whole life of X1's group; at the end its resolved notification went out a moment ago and the destroyed
+				// group has not been collected yet (the dispatcher's maintenance runs every few seconds)
+				y.fire(0)
+				time.Sleep(10*time.Second + time.Millisecond)
+				y.resolve(0)
+				time.Sleep(30 * time.Second)
 			}
 			if res.Skip {
 				x.f.stop()
@@ -371,7 +378,8 @@ func TestVerifC06App(t *testing.T) {
 	for _, a := range c06Alerts() {
 		names = append(names, "fire "+a.name+" "+fmt.Sprint(a.labels))
 	}
-	names = append(names, "resolve X1", "resolve Z1", "reload", "restart (same data dir)", "advance 10s", "advance 30s", "advance 61s")
+	names = append(names, "resolve X1", "resolve Z1", "reload", "restart (same data dir)", "advance 10s", "advance 30s", "advance 61s",
+		"X1 lives a whole cycle: fire, 10s (notified), resolve, 30s (resolved notification sent a moment ago, group not yet collected)")
 	part := "app-partition"
 	if rp := rep.ReplaySpec(); rp != nil {
 		if rp["part"] != part {
